@@ -35,6 +35,7 @@ type Prog struct {
 	typeIDs   map[string]int
 	allocMemo map[*ssa.Function]int
 	verifDir  string
+	globalChecked map[string]error
 }
 
 func LoadProg(repo string, patterns []string, verifDir string) (*Prog, error) {
